@@ -16,7 +16,7 @@ from types import SimpleNamespace
 from .. import astutil as A
 from ..cfg import CFG
 from ..dispatch import body_raises, find_chains, first_match, unknown_subclasses_rejected
-from ..guards import MISSING, Interp, Unsupported
+from ..guards import MISSING, Interp, Raised, Unsupported
 from ..loader import AnalysisError
 from .c01 import ROLES, eval_conds, guard_conditions, schedule_expr_check
 from .common import DS, short
@@ -109,12 +109,12 @@ def grafting_table(ctx, rep, rule: str) -> None:
                 if len(defs) == 1:
                     try:
                         it.env[nm] = it.ev(defs[0])
-                    except Unsupported:
+                    except (Unsupported, Raised):
                         pass
             for kw in ("beta2", "epsilon", "use_bias_correction"):
                 v = A.keyword(call, kw)
                 got[kw] = it.ev(v) if v is not None else None
-        except Unsupported as u:
+        except (Unsupported, Raised) as u:
             rep.ob(rule, f"grafting:{name}", False, fi.loc(call), f"the (beta2, epsilon, bias-correction) payload for {name} must be a function of the grafting config alone; `{ast.unparse(A.keyword(call, kw))[:110]}` depends on something else ({u})")
             continue
         w = want[name]
